@@ -48,8 +48,8 @@ _BADCALLS = ("MCGrafts_userfn.cfg", None, {"fnmd": True, "grafts": ("userfn_", "
 def _INTDIV(t):
     "every small integer-valued expression divided by an integer constant / dividing one (the C++ type it really has decides)"
     sfx = "" if t == "quick" else "_t"
-    return [("MCQueryGen_intdiv%s.cfg" % sfx, None, {"backend": "atlas", "cap": {"quick": 600, "thorough": 3000}}),
-            ("MCQueryGen_intrdiv%s.cfg" % sfx, None, {"backend": "cms_aod", "cap": {"quick": 300, "thorough": 3000}})]
+    return [("MCQueryGen_intdiv%s.cfg" % sfx, None, {"backend": "atlas", "cap": {"quick": 600, "thorough": 1500}}),
+            ("MCQueryGen_intrdiv%s.cfg" % sfx, None, {"backend": "cms_aod", "cap": {"quick": 300, "thorough": 1500}})]
 
 
 def _first_math(t):
